@@ -123,6 +123,22 @@ CLAIMS = {
         "Not decided: numerical equality with the plain export. The interaction with the optimizer's transpose folding is covered by C02 R-C02a, the kept unused NCHW input by C05 R-C05a.",
         "DESIGN.md §3 C12",
     ),
+    "C07": (
+        "def-use / must-pass analysis of the function dedup-key construction (loops over inputs and parameters, payload value-dependence, key assembly, instance-state fingerprint)",
+        "In FunctionPlugin._lower_and_call the input-signature loop must add, on every path, an entry depending on the unreduced aval shape and the dtype; the parameter loop must add a capture on every path; "
+        "each static capture payload must depend on the parameter's value (not only its type); FunctionKey must be assembled from name, input signature and capture signature; the default mode must key by callee "
+        "identity, the unique mode by captures plus a per-leaf/attribute value fingerprint of the instance. A key that ignores a distinguishing field still yields the function counts the pinned tests assert.",
+        "Not decided: equality with the undecorated export, hash collisions, call-node arity. Body-signature safety is C02 R-C02e, re-entrancy flag pairing is C13 R-C13d. The ragged-static-argument defect was repaired (fix f85648c).",
+        "DESIGN.md §3 C07",
+    ),
+    "C04": (
+        "key-domain classification of memo stores in LowerDimExpr, branch-table check of _convert_op against the reference operator table, pairing of graph-input creation with origin recording on the CFG, single-scope def-use check",
+        "Every memoising producer of LowerDimExpr must key in its own domain (constant tag / separator), so differently typed pairs cannot collide; each dimension operation must lower to the reference ONNX operator with "
+        "operands in order and unknown operations must raise; a value that becomes a graph input for a traced variable must get its symbolic-dim origins recorded on that same value with per-axis pairing; "
+        "all symbolic_shape calls must share one scope created once.",
+        "Not decided: broadcasting at size 1, run-time integer results, per-plugin shape arithmetic. The optimizer side (two symbols never equal) is C02 R-C02c. The memo-key collision was repaired (fix c1479e1).",
+        "DESIGN.md §3 C04",
+    ),
 }
 
 NOT_APPLICABLE = {
